@@ -16,6 +16,12 @@ def settings(rng, m):
             "det": 1, "repeat": 3, "snap": 1}
 
 
+def settings_starts(rng, m):
+    """several start solutions, goroutine timing perturbed differently in each repetition"""
+    return {"iterations": rng.choice([60, 150]), "duration_ms": 20000, "runs": 1, "starts": rng.choice([2, 3, 4]),
+            "det": 1, "repeat": 4, "snap": 1, "jitter": rng.choice([1, 3])}
+
+
 def compare_reps(chk, runs, cases):
     byid = {c["id"]: c for c in cases}
     groups = {}
@@ -57,6 +63,13 @@ def run(tier, seed, replay=None):
     chk.ob("harness solve exits normally", rc == 0, err[-400:])
     ndiff, ngroups = compare_reps(chk, runs, cases)
     chk.ob("3 repetitions identical (scores and full snapshots) on %d inputs" % ngroups, ndiff == 0 or not chk.violations)
+    # start-solution construction: single-stop units only (the order generator goroutine of the known finding never starts)
+    n2 = 12 if tier == "quick" else 200
+    cases2 = S.make_solve_cases(seed * 31 + 1212, n2, settings_starts, feats={"precedence": False}, size="medium")
+    runs2, rc2, err2 = S.run_solve(cases2, "c12s_" + tier, timeout=3000)
+    chk.ob("harness solve (several start solutions, jittered copies) exits normally", rc2 == 0, err2[-400:])
+    nd2, ng2 = compare_reps(chk, runs2, cases2)
+    chk.ob("4 repetitions with 2-4 start solutions and perturbed goroutine timing identical on %d inputs" % ng2, nd2 == 0)
     multi = sum(1 for c in cases if any(len(u["orders"]) > 1 for u in c["model"]["units"]))
     chk.ev.cov.update({
         "evaluations": len(runs), "distinct_nontrivial": multi,
